@@ -21,6 +21,8 @@ structure DNode where
 structure Dump where
   counter : Int
   names : List (Nat × Nat × Bool)  -- name, id of the pointed node object, object live
+  /-- name ↦ the nodes whose names entry was taken over (oldest first): id, object live -/
+  shadowed : List (Nat × List (Nat × Bool)) := []
   nodes : List DNode
   deriving Repr
 
@@ -47,7 +49,17 @@ def watchOK (d : Dump) : Bool :=
       | some ne => ne.watchers.any (fun w => w.1 == a.id)
       | none => false)
 
-def wfDump (d : Dump) : Bool := counterOK d && namesOK d && watchOK d
+/-- every shadowed node is live, registered, carries that name and is not the current entry; and every
+    registered node is reachable through its name: it is the `names` entry or waits in `shadowed` -/
+def shadowOK (d : Dump) : Bool :=
+  d.shadowed.all (fun e => e.2.all fun q =>
+    q.2 && (match d.find q.1 with | some n => n.name == e.1 | none => false)
+      && !(d.names.any fun m => m.1 == e.1 && m.2.1 == q.1))
+  && d.nodes.all (fun n =>
+    (d.names.any fun m => m.1 == n.name && m.2.1 == n.id)
+      || (d.shadowed.any fun e => e.1 == n.name && e.2.any fun q => q.1 == n.id))
+
+def wfDump (d : Dump) : Bool := counterOK d && namesOK d && watchOK d && shadowOK d
 
 /-! ### stop order -/
 
